@@ -100,6 +100,16 @@ var c13cmp = gen.Register(&gen.Check[caseC13cmp]{
 		two255 := new(big.Int).Lsh(big.NewInt(1), 255)
 		vals := []*big.Int{big.NewInt(0), big.NewInt(1), big.NewInt(2), big.NewInt(3), big.NewInt(5), two255, nm1, new(big.Int).Lsh(big.NewInt(1), 64)}
 		var out []caseC13cmp
+		// exhaustive: all ordered pairs of the 256 values whose limbs are taken from {0, 1, 2^63, 2^64-1} (reduced mod n),
+		// in the canonical domain and as Montgomery limb patterns
+		pats := gen.WordProducts(new(big.Int), 64, gen.Patterns4)
+		for _, a := range pats {
+			for _, b := range pats {
+				ra, rb := new(big.Int).Mod(a, ref.N), new(big.Int).Mod(b, ref.N)
+				out = append(out, caseC13cmp{S: h(ra), T: h(rb), Rel: "pattern-product"},
+					caseC13cmp{S: SV{Hex: gen.H(ra), Mont: true}, T: SV{Hex: gen.H(rb), Mont: true}, Rel: "pattern-product"})
+			}
+		}
 		for _, a := range vals {
 			for _, b := range vals {
 				out = append(out, caseC13cmp{S: h(a), T: h(b), Rel: "fixed"})
